@@ -356,28 +356,35 @@ def call_once(ctx, pat, mode, attempt):
     typed = mode != "untyped"
     names = []  # (var, name)
     pos_args, args_desc = [], []
+    shared = {}  # with pat["share"]: ONE Var object (hence one name) for all slots of the same sentinel type
+
+    def fresh(typ, name):
+        key = repr(typ)
+        if pat.get("share") and key in shared:
+            return shared[key]
+        v = mk_var(typ, typed)
+        names.append((v, name))
+        shared[key] = (v, name)
+        return v, name
+
     for i, (pname, k) in enumerate(ctx.pos):
         typ = sentinel_type(ctx.opname, pname)
         if k == "Var":
-            v = mk_var(typ, typed)
-            names.append((v, f"i{i}"))
+            v, nmv = fresh(typ, f"i{i}")
             pos_args.append(v)
-            args_desc.append(("S", f"i{i}"))
+            args_desc.append(("S", nmv))
         elif k == "OptVar":
             if pname in pat["opts"]:
-                v = mk_var(typ, typed)
-                names.append((v, f"i{i}"))
+                v, nmv = fresh(typ, f"i{i}")
                 pos_args.append(v)
-                args_desc.append(("O", f"i{i}"))
+                args_desc.append(("O", nmv))
             else:
                 pos_args.append(None)
                 args_desc.append(("O", None))
         elif k == "SeqVar":
-            vs = [mk_var(typ, typed) for _ in range(pat["varlen"])]
-            for j, v in enumerate(vs):
-                names.append((v, f"i{i}_{j}"))
-            pos_args.append(vs)
-            args_desc.append(("V", [f"i{i}_{j}" for j in range(len(vs))]))
+            pairs = [fresh(typ, f"i{i}_{j}") for j in range(pat["varlen"])]
+            pos_args.append([v for v, _ in pairs])
+            args_desc.append(("V", [n for _, n in pairs]))
         else:
             raise TypeError(f"positional parameter {pname} of class {k}")
     kwargs, given = {}, []
@@ -485,18 +492,21 @@ def observe(ctx, pat, stats):
             "attr": [], "error": f"{type(last).__name__}: {str(last)[:300]}"}
 
 
+SHARED_FAILS = []
+
+
 def patterns(ctx, rng=None, n_random=0):
     opt_inputs = [n for n, k in ctx.pos if k == "OptVar"]
     has_var = any(k == "SeqVar" for _, k in ctx.pos)
     opt_attrs = [n for n, _a, _o, d in ctx.kw if d is not inspect.Parameter.empty]
     pats, seen = [], set()
 
-    def add(label, opts, varlen, attrs, variant=0):
-        key = (tuple(sorted(opts)), varlen if has_var else 1, tuple(sorted(attrs)), variant if attrs or ctx.kw else 0)
+    def add(label, opts, varlen, attrs, variant=0, share=False):
+        key = (tuple(sorted(opts)), varlen if has_var else 1, tuple(sorted(attrs)), variant if attrs or ctx.kw else 0, share)
         if key in seen:
             return
         seen.add(key)
-        pats.append({"label": label, "opts": frozenset(opts), "varlen": varlen, "attrs": frozenset(attrs), "variant": variant})
+        pats.append({"label": label, "opts": frozenset(opts), "varlen": varlen, "attrs": frozenset(attrs), "variant": variant, "share": share})
 
     add("defaults", [], 1, [])
     for r in range(1, len(opt_inputs) + 1):
@@ -508,6 +518,11 @@ def patterns(ctx, rng=None, n_random=0):
     add("all-attrs", [], 1, opt_attrs)
     add("all-attrs+all-inputs", opt_inputs, 1, opt_attrs)
     add("no-attrs+all-inputs", opt_inputs, 1, [])
+    # one Var object passed to several slots (each argument must still land in its own schema slot)
+    if len(ctx.pos) >= 2 or has_var:
+        add("shared-var+all-inputs", opt_inputs, 3 if has_var else 1, [], share=True)
+        for r in range(1, len(opt_inputs)):
+            add("shared-var+inputs-prefix%d" % r, opt_inputs[:r], 2 if has_var else 1, [], share=True)
     if has_var:
         for L in (0, 2, 3):
             add(f"variadic={L}", [], L, [])
@@ -622,7 +637,29 @@ def dump_entry(M, key, schema_by_name, rng=None, n_random=0, stats=None):
         callable_ok = False
     if callable_ok:
         for pat in patterns(ctx, rng, n_random):
-            e["obs"].append(observe(ctx, pat, stats))
+            o = observe(ctx, pat, stats)
+            if pat.get("share"):
+                # one Var in several slots: sentinel names repeat, so the Coq check (which needs distinct names to tell the
+                # arguments apart) does not apply; the emission is compared here with the prescribed one (position i = argument i,
+                # "" for inner omitted optionals, trailing omitted ones dropped down to the schema minimum)
+                stats["shared_var_patterns"] = stats.get("shared_var_patterns", 0) + 1
+                if o.get("raised"):
+                    continue
+                flat = []
+                for a in o["args"]:
+                    if a[0] == "ArgV":
+                        flat.extend(a[1])
+                    else:
+                        flat.append(a[1] if a[1] is not None else "")
+                sch = schema_by_name.get(key)
+                min_in = sch["min_in"] if sch is not None else 0
+                while len(flat) > min_in and flat[-1] == "":
+                    flat.pop()
+                if list(o["in"]) != flat:
+                    SHARED_FAILS.append({"module": M.__name__, "operator": key, "pattern": pat["label"], "args": o["args"],
+                                         "emitted_inputs": list(o["in"]), "prescribed_inputs": flat})
+                continue
+            e["obs"].append(o)
     return e
 
 
